@@ -181,6 +181,21 @@ def build(placement):
                     op = {"W": "@=" if kind == "var" else "<<=", "P": "^="}[acc]
                     stmts[place].append("%s%s %s %s" % (name, SEL[part], op, SRC[part]))
                 events[place] += [ev(root, acc, kind), ev(IA_ROOT, "R", "pin")]
+    # std.sequential starts its body with reset_pushed(): an ordinary write of the default to every signal that is
+    # pushed in that body (in the order of the first push); the core-API flavour has no such statement
+    for place in ("B0", "B2"):
+        if place == "B2" and "B2" in placement.get("core", []):
+            continue
+        pushed = []
+        for k, ob in enumerate(objs):
+            if any(a[0] == place and a[1] == "P" for a in ob["acc"]) and (k + 1, ob["kind"]) not in pushed:
+                pushed.append((k + 1, ob["kind"]))
+        order = []
+        for k, ob in enumerate(objs):          # order of the first push statement = order of emission above
+            for a in ob["acc"]:
+                if a[0] == place and a[1] == "P" and (k + 1, ob["kind"]) not in order:
+                    order.append((k + 1, ob["kind"]))
+        events[place] = [ev(r, "W", kd) for r, kd in order] + events[place]
     for s in sinks:
         locals_.append("        %s = Signal[BitVector[4]]()" % s)
 
